@@ -654,7 +654,17 @@ func (e *Env) execFile(op Op) Result {
 		return Result{Err: "nohandle"}
 	}
 
-	res := func(err error, data string) Result { return Result{Err: ErrClass(err), Data: data} }
+	res := func(err error, data string) Result {
+		if e.ErrPaths && err != nil {
+			// the path a handle method reports in its error is the name the file was opened with.
+			var pe *fs.PathError
+			if errors.As(err, &pe) {
+				data += " errpath=" + strconv.Quote(pe.Path)
+			}
+		}
+
+		return Result{Err: ErrClass(err), Data: data}
+	}
 	probe := func() string {
 		if e.IsDir[op.H] || e.NoProbe {
 			return ""
